@@ -2489,8 +2489,20 @@ class Network:
             network = Network([])
         if recycles: 
             recycle_networks = [Network(*i) for i in cyclic_paths_with_recycle]
-            for recycle_network in recycle_networks:
-                network.join_recycle_network(recycle_network)
+            while recycle_networks:
+                # A recycle loop may be connected to the network only through
+                # another recycle loop; join it after that one.
+                postponed = []
+                for recycle_network in recycle_networks:
+                    if network.isdisjoint(recycle_network):
+                        postponed.append(recycle_network)
+                    else:
+                        network.join_recycle_network(recycle_network)
+                if len(postponed) == len(recycle_networks):
+                    for recycle_network in postponed:
+                        network.join_recycle_network(recycle_network)
+                    break
+                recycle_networks = postponed
         ends.update(network.streams)
         disjunction_streams = set([i.get_stream() for i in disjunctions])
         for feed in feeds:
